@@ -199,10 +199,17 @@ func Observe(s string) { Observed = append(Observed, s) }
 // bounds there).
 func Thorough() bool { return replay.Thor }
 
-// MapOrders switches exploration of Go's map iteration order on: under symgo every
-// range over a map with >= 2 entries draws its order from a symbolic permutation.
-// Natively it is a no-op (the runtime's own randomisation applies).
-func MapOrders(on bool) {}
+// MapOrders switches exploration of Go's map iteration order: 0 = canonical order,
+// 1 = every range over a map iterates forward or in reverse, one symbolic direction per
+// call of MapOrders(1) (call it before each run), 2 = every range over a map with >= 2
+// entries draws its own order from a symbolic permutation. Natively it is a no-op (the
+// runtime's own randomisation applies).
+func MapOrders(mode int) {}
+
+// Repeats is how often a comparison of two runs is repeated natively when the difference
+// depends on Go's randomised map order (which cannot be forced from outside); under
+// symgo the order is a symbolic permutation and one comparison suffices, so it returns 1.
+func Repeats(native int) int { return native }
 
 // Concrete forces a small symbolic int to a concrete value by forking.
 func Concrete(x int) int { return x }
